@@ -60,6 +60,7 @@ type Contract struct {
 	Split     int
 	SplitDeep bool
 	Pure      bool
+	Logged    bool // modular calls append "@Key" to the ghost write log of the caller
 	ResultPure string // assumption: function values this function returns are side-effect free, deterministic functions of their arguments
 	Unfold    map[string]bool
 	CaseVar   string
@@ -189,6 +190,8 @@ func parseContractFile(fset *token.FileSet, f *ast.File, pkg *packages.Package) 
 				cur.Inline = true
 			case "pure":
 				cur.Pure = true
+			case "logged":
+				cur.Logged = true
 			case "resultpure":
 				cur.ResultPure = strings.TrimSpace(rest)
 				if cur.ResultPure == "" {
